@@ -679,6 +679,7 @@ type supMessageChildTerminate struct {
 func supCheckRestartIntensity(restarts []int64, period int, intensity int) ([]int64, bool) {
 	// Use milliseconds for better granularity
 	now := time.Now().UnixMilli()
+	now = lib.VerifNow(now)
 	restarts = append(restarts, now)
 	if len(restarts) <= intensity {
 		return restarts, false
